@@ -235,15 +235,17 @@ fn gen_script(rng: &mut Rng, prof: &Profile, minor: u32, abuser: bool, conforman
     while script.len() < n {
         if abuser {
             // Any operation, including wrong-direction messages and garbage payloads.
-            let k = if rng.chance(1, 3) {
-                OpKind::Raw
-            } else {
-                loop {
+            // A third raw frames, a third any kind uniformly, a third by the profile's weights (so
+            // that a run concentrating on one subsystem is also abused there).
+            let k = match rng.below(3) {
+                0 => OpKind::Raw,
+                1 => loop {
                     let k = *rng.pick(OpKind::ALL);
                     if k.is_message() {
                         break k;
                     }
-                }
+                },
+                _ => kinds[rng.weighted(&weights)],
             };
             let mut op = random_op(rng, k);
             op.c = rng.next_u32() >> 8; // garbage payload shape now and then (c % 16 == 15)
@@ -313,6 +315,29 @@ pub fn gen_wire_plan(prop: Prop, seed: u64, tier: Tier) -> WirePlan {
         prof.actors.1 += 1;
         prof.ops.1 *= 2;
     }
+    // Swarm style: a third of the mixed-profile runs concentrate on one subsystem (its operations
+    // five times as likely), so that states needing several cooperating operations of one kind
+    // (three registrants of one introspection type, several listeners, long call chains) are reached
+    // within the quick budget.
+    let mut intro_focus = false;
+    if matches!(prop, Prop::C09 | Prop::C11 | Prop::C12) {
+        let mut frng = Rng::new(seed ^ 0x666f_6375_73);
+        use OpKind::*;
+        let focus: &[OpKind] = match frng.below(15) {
+            0 => &[Call, Reply, Abort],
+            1 => &[SubscribeEvent, UnsubscribeEvent, SubscribeAll, UnsubscribeAll, SubscribeService, UnsubscribeService, EmitEvent],
+            2 => &[CreateChannel, ClaimChannelEnd, CloseChannelEnd, SendItem, AddCapacity],
+            3 => &[CreateListener, DestroyListener, AddFilter, RemoveFilter, ClearFilters, StartListener, StopListener],
+            4 => &[RegisterIntrospection, QueryIntrospection, QueryIntrospectionReply],
+            _ => &[],
+        };
+        for w in prof.weights.iter_mut() {
+            if focus.contains(&w.0) {
+                w.1 *= 5;
+            }
+        }
+        intro_focus = focus.contains(&RegisterIntrospection);
+    }
     let n_actors = rng.range(prof.actors.0, prof.actors.1);
     let mut actors = Vec::new();
 
@@ -336,6 +361,10 @@ pub fn gen_wire_plan(prop: Prop, seed: u64, tier: Tier) -> WirePlan {
                 3 => minor = *rng.pick(&[21, 1000, u32::MAX]),
                 _ => {}
             }
+        }
+        if intro_focus && prop != Prop::C12 && !legacy && major == 1 && (14..17).contains(&minor) {
+            // Introspection needs 1.17: most connections of such a run can take part.
+            minor = 17 + (minor - 14);
         }
         let abuser = i < n_abusers;
         let connects = if legacy { minor == 14 } else { major == 1 && minor >= 14 };
